@@ -384,15 +384,18 @@ def run_property(prop_id, tier, modname, level="other", explanation="", assumpti
     for k, f in known.items():
         if k not in known_hits and not any(h.endswith(":" + k) for h in known_hits):
             print(f"note: listed known finding not re-derived in this tier: {k}")
-    if errors:
-        for n, e in errors[:5]:
-            print(f"HARNESS-ERROR in {n}: {e}")
-        return 3
+    # a violation has been replayed with ordinary values against the real code: it stands whatever else went wrong in other obligations
     if violations:
         for k, path, desc in violations:
             print(f"  violation class {k}: {desc}")
             print(f"VIOLATION property={prop_id} replay={path}")
+        for n, e in errors[:3]:
+            print(f"note: harness error in {n}: {str(e).splitlines()[0][:200]}")
         return 1
+    if errors:
+        for n, e in errors[:5]:
+            print(f"HARNESS-ERROR in {n}: {e}")
+        return 3
     if unreproduced:
         for n, k, m in unreproduced[:5]:
             print(f"INCONCLUSIVE: candidate counterexample did not replay concretely: {n}: {k}: {m}")
